@@ -16,6 +16,9 @@ from .common import LABELS, Scenario, ask, gen_batch, is_linear, is_nan, new_mab
 
 VECS = {'e1': [1.0, 0.0, 0.0, 0.0], 'e2': [0.0, 1.0, 0.0, 0.0], 'e3': [0.0, 0.0, 1.0, 0.0], 'e4': [0.0, 0.0, 0.0, 1.0],
         'zero': [0.0, 0.0, 0.0, 0.0]}
+import math as _math   # noqa: E402
+for _deg in (0, 10, 40, 90):
+    VECS['a%d' % _deg] = [_math.cos(_math.radians(_deg)), _math.sin(_math.radians(_deg))]
 DERIVED = ('arm_to_status', 'arm_to_expectation', 'arm_to_exponent')
 
 
@@ -89,10 +92,11 @@ def quantile(env, vals, q):
 
 
 class Dist:
-    """the distance matrix as the library's environment defines it (symbolic run: fresh reals per pair)"""
+    """the distance matrix as the library's environment defines it (symbolic run: fresh reals per pair; concrete=True:
+    scipy's cosine distance of the concrete feature vectors)"""
 
-    def __init__(self, env, feats):
-        self.env, self.feats = env, feats
+    def __init__(self, env, feats, concrete=False):
+        self.env, self.feats, self.concrete = env, feats, concrete
 
     def d(self, a, b):
         from sx import npx
@@ -103,6 +107,9 @@ class Dist:
             return 999999
         if (fa == fb).all():
             return 0.0
+        if self.concrete:
+            from scipy.spatial.distance import cdist as real
+            return float(real(fa[None, :].astype(float), fb[None, :].astype(float), metric='cosine')[0, 0])
         n = npx.cosine_name(fa, fb)
         if self.env.sym:
             return self.env.ctx.scratch['cos'][n]
@@ -136,7 +143,7 @@ def expected_W(env, arms, trained, warm, dist, q):
 ARMS = [3, 1, 2, 4]     # list order differs from the sort order of the labels (tie-breaks must follow list order)
 
 
-def warm(env, lp, A, N, layout, after='', add_cold=False, twin=False, mono=True, refit_first=False):
+def warm(env, lp, A, N, layout, after='', add_cold=False, twin=False, mono=True, refit_first=False, concrete=False):
     arms = list(ARMS[:A])
     d = 1 if is_linear(lp) else 0
     dec, rew, ctx = gen_batch(env, 'h', arms, N, reward_kind(lp), d=d, fixed_n=N)
@@ -158,7 +165,7 @@ def warm(env, lp, A, N, layout, after='', add_cold=False, twin=False, mono=True,
     imp = mab._imp
     before = snapshot(imp, lp, arms)
     mab.warm_start(dict(feats), q)
-    dist = Dist(env, feats)
+    dist = Dist(env, feats, concrete)
     W = expected_W(env, arms, trained, set(), dist, q)
     after1 = snapshot(imp, lp, arms)
     for k in before:
@@ -270,6 +277,13 @@ def scenarios(tier):
             out.append(Scenario('%s.A3plus1.dup' % lp, warm,
                                 dict(lp=lp, A=3, N=2, layout=('e1', 'e2', 'e1', 'e2'), add_cold=True, after='P'),
                                 setup=_setup(), weight=2000, shards=8, max_paths=300000))
+    # four arms with concrete unit vectors at 0, 10, 40 and 90 degrees (real scipy cosine distances, several equal nearest-
+    # neighbour distances), symbolic quantile: the threshold is the quantile over one entry per arm, duplicates included
+    for lp in (['greedy0'] if q else ['greedy0', 'ucb1', 'linucb']):
+        out.append(Scenario('%s.A4.concrete_angles' % lp, warm,
+                            dict(lp=lp, A=4, N=3, layout=('a0', 'a10', 'a40', 'a90'), mono=False, concrete=True),
+                            setup=dict(no_tv=True), weight=300, shards=4, max_paths=60000,
+                            bounds=dict(lp=lp, arms=4, features='unit vectors at 0/10/40/90 degrees', quantile='symbolic')))
     out.append(Scenario('twin.ucb1', warm, dict(lp='ucb1', A=3, N=2, layout=('e1', 'e2', 'e3'), twin=True), setup=_setup(),
                         twin=True))
     return out
